@@ -1,6 +1,7 @@
 package e1front
 
 import (
+	"fmt"
 	"math/rand/v2"
 	"strings"
 
@@ -108,6 +109,13 @@ func genKeys(r *rand.Rand, n int, publicName string, collide int) []KeySpec {
 		if i > 0 && r.IntN(8) < collide {
 			k.ID = ks[r.IntN(i)].ID
 		}
+		if i > 0 && r.IntN(4) == 0 {
+			// a front serving several public names (ids may still collide)
+			k.PublicName = fmt.Sprintf("pub%d.%s", i, publicName)
+			if len(k.PublicName) > 250 {
+				k.PublicName = fmt.Sprintf("pub%d.example.net", i)
+			}
+		}
 		ks = append(ks, k)
 	}
 	return ks
@@ -195,6 +203,13 @@ func genC01(seed uint64, idx int) *Plan {
 		p.Stale = KeySpec{ID: byte(r.IntN(256)), PublicName: p.Keys[0].PublicName, Suites: genSuites(r), KeySeed: int(r.Uint32())}
 		if r.IntN(2) == 0 {
 			p.Stale.ID = p.Keys[r.IntN(len(p.Keys))].ID
+		}
+		if r.IntN(3) == 0 {
+			// an old config for another public name of the same front, id possibly reused
+			p.Stale.PublicName = "old." + p.Keys[0].PublicName
+			if len(p.Stale.PublicName) > 250 {
+				p.Stale.PublicName = "old.example.net"
+			}
 		}
 		p.Resume = false
 	}
